@@ -43,7 +43,9 @@ pub fn real_a0(u: &Unimock, x: u8) -> u64 {
     run_prog(ProgKind::Real(M::A0), x, 0, &mut ref_port(u))
 }
 
-#[unimock(api = BetaMock, unmock_with = [_, real_b1, _, _], const K: u64 = 5;)]
+// (b3, a required method that the default bodies call, has a real function too: reaching it through a
+// default body must still mean 'evaluated by the mock', not 'the real function')
+#[unimock(api = BetaMock, unmock_with = [_, real_b1, _, real_b3], const K: u64 = 5;)]
 pub trait Beta: HasSnap {
     /// an associated constant with a default, overridden for the mock through the attribute: default
     /// bodies must see the mock's value (5), not the trait's
@@ -77,6 +79,21 @@ pub trait Beta: HasSnap {
 
 pub fn real_b1(u: &Unimock, x: u8) -> u64 {
     run_prog(ProgKind::Real(M::B1), x, 0, &mut ref_port(u))
+}
+
+/// (generic over its dependency, as real functions often are: whatever implements the trait can be
+/// handed to it - unimock hands it the mock)
+pub fn real_b3<T: Beta + 'static>(dep: &T, x: u8) -> u64 {
+    match (dep as &dyn std::any::Any).downcast_ref::<Unimock>() {
+        Some(u) => run_prog(ProgKind::Real(M::B3), x, 0, &mut ref_port(u)),
+        // something else that implements Beta: the program can only reach Beta's own methods
+        None => run_prog(ProgKind::Real(M::B3), x, 0, &mut |req| match req {
+            PortReq::Snap => PortResp::Snap(dep.snap()),
+            PortReq::Call(M::B2, x, y) => PortResp::Val(dep.b2(x, y)),
+            PortReq::Call(M::B3, x, _) => PortResp::Val(dep.b3(x)),
+            PortReq::Call(..) => PortResp::Val(0),
+        }),
+    }
 }
 
 #[unimock(api = GammaMock, unmock_with = [real_gm, _])]
@@ -529,6 +546,7 @@ pub fn direct_real(u: &Unimock, m: M, x: u8, y: u8) -> u64 {
     match m {
         M::A0 => real_a0(u, x),
         M::B1 => real_b1(u, x),
+        M::B3 => real_b3(u, x),
         M::E0 => real_e0(y, u, x),
         M::S0 => real_s0(u, x),
         M::S2 => real_s2(u, x),
